@@ -23,11 +23,34 @@ pub fn nesting(s: &str) -> usize {
 
 /// Run `f` on a thread with a large stack (the parser recurses deeply); a panic in `f` aborts the process,
 /// which libFuzzer records as a crash with the input.
+/// One worker thread lives for the whole process: creating a thread with a 128 MiB stack per execution made the
+/// resident size of an ASan build grow by ~3 MB per execution (5 GB per worker after 1 600 executions).
 pub fn on_big_stack<F: FnOnce() + Send>(f: F) {
-    std::thread::scope(|s| {
-        let h = std::thread::Builder::new().stack_size(128 << 20).spawn_scoped(s, f).expect("spawn");
-        if h.join().is_err() {
-            std::process::abort();
-        }
+    use std::sync::mpsc::{channel, Receiver, Sender};
+    use std::sync::{Mutex, OnceLock};
+    type Job = Box<dyn FnOnce() + Send + 'static>;
+    static WORKER: OnceLock<Mutex<(Sender<Job>, Receiver<bool>)>> = OnceLock::new();
+    let w = WORKER.get_or_init(|| {
+        let (tx, rx) = channel::<Job>();
+        let (dtx, drx) = channel::<bool>();
+        std::thread::Builder::new()
+            .stack_size(128 << 20)
+            .spawn(move || {
+                for job in rx {
+                    let ok = std::panic::catch_unwind(std::panic::AssertUnwindSafe(job)).is_ok();
+                    let _ = dtx.send(ok);
+                }
+            })
+            .expect("spawn");
+        Mutex::new((tx, drx))
     });
+    let guard = w.lock().unwrap_or_else(|e| e.into_inner());
+    // the job borrows from the caller's frame; the caller blocks until the job is done, so the borrow outlives it
+    let job: Box<dyn FnOnce() + Send + '_> = Box::new(f);
+    let job: Job = unsafe { std::mem::transmute(job) };
+    guard.0.send(job).expect("worker alive");
+    let ok = guard.1.recv().unwrap_or(false);
+    if !ok {
+        std::process::abort();
+    }
 }
